@@ -655,3 +655,59 @@ class ParallelStub:
 
 
 PAR_CALLS = []
+
+
+# ------------------------------------------------------------------------------------------------
+# PYTHONHASHSEED: iteration order of sets of strings is chosen by the solver
+
+def make_nondet_set(env):
+    import itertools as _it
+    counter = [0]
+
+    class NondetSet(set):
+        """builtin `set` inside the mabwiser modules: a set that contains str elements iterates in an arbitrary
+        (solver-chosen) order, as it does under an arbitrary PYTHONHASHSEED"""
+
+        def __iter__(self):
+            items = list(set.__iter__(self))
+            if len(items) > 1 and any(isinstance(x, str) for x in items):
+                try:
+                    items.sort(key=lambda x: (str(type(x)), x))
+                except TypeError:
+                    pass
+                counter[0] += 1
+                perms = list(_it.permutations(range(len(items))))
+                order = env.choose('setorder%d' % counter[0], perms)
+                items = [items[i] for i in order]
+            return iter(items)
+
+        def _wrap(self, r):
+            return NondetSet(r) if isinstance(r, (set, frozenset)) and not isinstance(r, NondetSet) else r
+
+        def intersection(self, *o):
+            return NondetSet(set.intersection(set(set.__iter__(self)), *[set(x) for x in o]))
+
+        def union(self, *o):
+            return NondetSet(set.union(set(set.__iter__(self)), *[set(x) for x in o]))
+
+        def difference(self, *o):
+            return NondetSet(set.difference(set(set.__iter__(self)), *[set(x) for x in o]))
+
+        def symmetric_difference(self, o):
+            return NondetSet(set.symmetric_difference(set(set.__iter__(self)), set(o)))
+
+        def copy(self):
+            return NondetSet(set.__iter__(self))
+
+        def __and__(self, o):
+            return self.intersection(o)
+
+        def __or__(self, o):
+            return self.union(o)
+
+        def __sub__(self, o):
+            return self.difference(o)
+
+        def __reduce__(self):
+            return (set, (list(set.__iter__(self)),))
+    return NondetSet
